@@ -109,7 +109,15 @@ impl Parse for JoinInputDefault {
                 if join.custom_joiner.is_some() {
                     return Err(input.error("custom_joiner specified twice"));
                 }
-                join.custom_joiner = Some(content.parse()?);
+                let custom_joiner: proc_macro2::TokenStream = content.parse()?;
+                // Joiner will be applied as `joiner(branch, ..)`, so it should be something callable:
+                // function, closure or macro.
+                if syn::parse2::<syn::Expr>(quote::quote! { #custom_joiner() }).is_err() {
+                    return Err(input.error(
+                        "custom_joiner should be a function, closure or macro which can be called with branches",
+                    ));
+                }
+                join.custom_joiner = Some(custom_joiner);
             }
 
             if input.peek(keywords::transpose_results) {
